@@ -599,6 +599,11 @@ def run(ctx):
     ctx.guarded('C03-D4', 'obs.py@units', d4_units, ctx, obs)
     ctx.guarded('C03-D5', 'obs.py@read-set', d5_readset, ctx, obs)
     ctx.guarded('C03-D6', 'obs.py@bounds', d6_bounds, ctx, obs)
+    from .. import unusedparams
+    ctx.rule('C03-D7', 'every accepted option is read (no silently ignored parameter)')
+    for mn_ in ('obs',):
+        ctx.guarded('C03-D7', mn_ + '@parameters', unusedparams.check, ctx, 'C03-D7', ctx.repo.mod(mn_))
+
 
 
 SELFTEST = [
